@@ -90,6 +90,9 @@ class CounterPairs(AlignStream):
         b = dict(case, it=case['it2'])
         return dict(a=pl.run_align(case), b=pl.run_align(b))
 
+    def tolerated(self, case, out):
+        return bool(out.get('a', {}).get('float_flip') or out.get('b', {}).get('float_flip'))
+
     def term(self, case, out):
         if 'a' not in out:      # adapter failure: render as an error/non-error pair so that the correspondence breaks visibly
             return '(%s, %s)' % (pl.align_term(case, dict(err='HARNESS')), pl.align_term(dict(case, it=case['it2']), dict(segs=[])))
